@@ -1,4 +1,5 @@
 import Dbus.Proofs.Bus.Activation
+import Dbus.Proofs.Bus.Timed
 import Dbus.Model.Helper
 /-
   C19 — auto-started services get held messages once, in order, or callers get errors; the
@@ -250,6 +251,7 @@ theorem program_started_at_most_once_per_activation (tbl : List IfaceRow) (a : A
       | invalid c => exact Eff.same rfl rfl rfl
       | close c => exact Eff.same rfl rfl rfl
       | timeout => exact Eff.same rfl rfl rfl
+      | expire due => exact Eff.same rfl rfl rfl
       | stall c on => exact Eff.same rfl rfl rfl
     | childExited k err =>
       cases err with
@@ -447,5 +449,62 @@ example : ∃ (x : ATx) (pa : PendingAct), findAct x.acts [0x61] = some pa ∧ x
      acts := [{ name := [0x61], exec := [], entries := [{ conn := 1, msg := default, auto := true }, { conn := 2, msg := default, auto := false },
                                                           { conn := 1, msg := default, auto := true }] }] },
    _, rfl, rfl, rfl⟩
+
+/-! ### the start timeout belongs to the activation, not to its waiters -/
+
+/-- has the timer of the pending activation `n` run out at time `now`? -/
+def actDue (t : TBus) (now : Nat) (n : Bytes) : Bool := t.actBorn.any fun e => e.1 == n && decide (e.2 + t.startTimeout ≤ now)
+
+theorem actDue_iff (t : TBus) (now : Nat) (n : Bytes) : actDue t now n = true ↔ ∃ b, (n, b) ∈ t.actBorn ∧ b + t.startTimeout ≤ now := by
+  unfold actDue
+  simp only [List.any_eq_true, Bool.and_eq_true, beq_iff_eq, decide_eq_true_eq]
+  constructor
+  · rintro ⟨e, he, rfl, hd⟩; exact ⟨e.2, he, hd⟩
+  · rintro ⟨b, hb, hd⟩; exact ⟨(n, b), hb, rfl, hd⟩
+
+/-- **Joining an activation does not move its deadline.** Whatever happens — more senders joining the
+    pending activation, other traffic — as long as the activation is still pending afterwards, the
+    time its timer was armed at is the one recorded when the program was started. -/
+theorem joining_keeps_the_start_deadline (tbl : List IfaceRow) (t : TBus) (e : AEv) (pa : PendingAct) (b : Nat)
+    (hb : t.actBorn.lookup pa.name = some b) (hpa : pa ∈ (stepT tbl t (.ev e)).1.a.acts) :
+    (pa.name, b) ∈ (stepT tbl t (.ev e)).1.actBorn :=
+  stampActs_keeps t.now t.actBorn _ pa b hb hpa
+
+/-- **When time passes, exactly the activations whose timer has run out end** (each waiter getting its
+    TimedOut error: `timeout_fails_every_waiter`); every other pending activation stays as it is, with
+    all its waiters. -/
+theorem start_deadline_is_fixed (tbl : List IfaceRow) (t : TBus) (dt : Nat) :
+    (stepT tbl t (.advance dt)).1.a.acts = t.a.acts.filter (fun pa => !actDue t (t.now + dt) pa.name) := by
+  simp only [stepT]
+  rw [fireActs_acts]
+  show t.a.acts.filter _ = _
+  apply List.filter_congr
+  intro pa _
+  congr 1
+  have h1 := mem_dueActs { t with now := t.now + dt } (t.now + dt) pa.name
+  have h2 := actDue_iff t (t.now + dt) pa.name
+  cases hs : actDue t (t.now + dt) pa.name with
+  | true => simpa using h1.mpr (h2.mp hs)
+  | false =>
+    have hn : pa.name ∉ dueActs { t with now := t.now + dt } (t.now + dt) := fun hm => by
+      have := h2.mpr (h1.mp hm); rw [hs] at this; cases this
+    simpa using hn
+
+/-- the transactions of an `advance`, after the expiry of the pending replies, are the time-outs of the
+    due activations: one each -/
+theorem one_timeout_per_due_activation (tbl : List IfaceRow) (t : TBus) (dt : Nat) :
+    (stepT tbl t (.advance dt)).2.length = 1 + (dueActs { t with now := t.now + dt } (t.now + dt)).length := by
+  simp only [stepT]
+  obtain ⟨rest, h, hl⟩ := fireActs_txs tbl (dueActs { t with now := t.now + dt } (t.now + dt))
+    (({ t with now := t.now + dt } : TBus).next (stepA tbl t.a (.core (.expire (dueSlots { t with now := t.now + dt } (t.now + dt))))))
+    [stepA tbl t.a (.core (.expire (dueSlots { t with now := t.now + dt } (t.now + dt))))]
+  rw [h]; simp [hl]; omega
+
+/-- the hypotheses are met: an activation started at time 0 with a 1000 s timeout, joined at 700 s, is still
+    pending at 900 s and over at 1150 s -/
+example : let t : TBus := { a := { acts := [{ name := [0x61], exec := [], entries := [{ conn := 1, msg := default, auto := true }] }] },
+                            startTimeout := 1000000, actBorn := [([0x61], 0)], now := 700000 }
+    ((stepT [] t (.advance 200000)).1.a.acts.length = 1) ∧ ((stepT [] t (.advance 450000)).1.a.acts.length = 0) := by
+  decide
 
 end Dbus.Props.C19
